@@ -6,7 +6,6 @@ cd "$(dirname "$0")"
 export CARGO_NET_OFFLINE=true
 mkdir -p .cache evidence replays coq/gen
 ( cd coq && coq_makefile -f _CoqProject -o Makefile $(find . -name '*.v' -not -path './gen/*' | sed 's|^\./||' | sort) $(ls gen/Gen*.v 2>/dev/null) >/dev/null && timeout 3000 make -j16 )
-cp /repo/Cargo.lock harness/Cargo.lock
-( cd harness && RUSTFLAGS="--cfg nextest_verif --cfg tokio_unstable" timeout 3000 cargo build --offline )
+python3 -c "import sys; sys.path.insert(0,'lib'); import vlib; b,e=vlib.build_harness(); print(e); sys.exit(0 if b else 1)"
 if [ -x e2e/build.sh ]; then e2e/build.sh; fi
 echo setup done
